@@ -106,6 +106,14 @@ def _seq_like(n: ast.AST) -> bool:
     return False
 
 
+def _base(node: ast.AST, env, depth) -> str:
+    """Canonical text of an expression used as the base of an attribute / subscript / call: parenthesised unless it is a single atom."""
+    p = poly(node, env, depth)
+    single = len(p.t) == 1 and all(len(m) == 1 and m[0][1] == 1 and c == 1 for m, c in p.t.items())
+    t = str(p)
+    return t if single else f"({t})"
+
+
 def canon(node: ast.AST, env: Optional[Dict[str, ast.AST]] = None, _depth: int = 0) -> str:
     """Canonical text of any expression (arithmetic parts in polynomial normal form)."""
     return str(poly(node, env, _depth))
@@ -199,7 +207,7 @@ def poly(node: ast.AST, env: Optional[Dict[str, ast.AST]] = None, _depth: int = 
         if fname in ("int",) and len(node.args) == 1:
             return rec(node.args[0])
         if isinstance(f, ast.Attribute):
-            fn = f"{canon(f.value, env, _depth + 1)}.{f.attr}"
+            fn = f"{_base(f.value, env, _depth + 1)}.{f.attr}"
         else:
             fn = canon(f, env, _depth + 1)
         args = [canon(a.value, env, _depth + 1) if isinstance(a, ast.Starred) else canon(a, env, _depth + 1) for a in node.args]
@@ -207,9 +215,9 @@ def poly(node: ast.AST, env: Optional[Dict[str, ast.AST]] = None, _depth: int = 
         kws = sorted((f"{k.arg}=" if k.arg else "**") + canon(k.value, env, _depth + 1) for k in node.keywords)
         return Poly.atom(f"{fn}({', '.join(args + kws)})")
     if isinstance(node, ast.Attribute):
-        return Poly.atom(f"{canon(node.value, env, _depth + 1)}.{node.attr}")
+        return Poly.atom(f"{_base(node.value, env, _depth + 1)}.{node.attr}")
     if isinstance(node, ast.Subscript):
-        return Poly.atom(f"{canon(node.value, env, _depth + 1)}[{canon(node.slice, env, _depth + 1)}]")
+        return Poly.atom(f"{_base(node.value, env, _depth + 1)}[{canon(node.slice, env, _depth + 1)}]")
     if isinstance(node, ast.Slice):
         lo = canon(node.lower, env, _depth + 1) if node.lower else ""
         hi = canon(node.upper, env, _depth + 1) if node.upper else ""
